@@ -38,7 +38,7 @@ STORED_EQ = [
     "0", "1", "-1", "1.5", "None", "True", "''", "'a'", "'a\\nb'", "b'x'", "Color.RED", "Perm.R | Perm.W", "1j", "int",
     "[]", "[0]", "[0, 1]", "[0, 'a', None]", "()", "(0,)", "(0, 1)", "{}", "{'a': 0}", "{'a': 0, 'b': [1]}", "{0, 1}", "frozenset({0})",
     "[[0], [1, 2]]", "[{'a': (0,)}]", "{'a': {'b': 0}}", "DC(x=1)", "DC(x=1, y=2, z=[3])", "AT(a=1, b=2)", "PM(a=[1])", "NT(a=1, b=2)",
-    "defaultdict(list, {'a': [1]})", "Opaque(1)", "[DC(x=1), 0]",
+    "defaultdict(list, {'a': [1]})", "Opaque(1)", "[DC(x=1), 0]", "NT(1, 2)", "AT(1, 2)", "DC(1, 2)", "[NT(1, b=2)]", "defaultdict(list, a=[1])",
     # user-controlled parts and inner snapshots at every position of depth <= 2
     "Is(1)", "[Is(1), 2]", "[1, Is(2)]", "{'a': Is(1), 'b': 2}", "(Is(1),)", "[[Is(1)], 2]", "DC(x=Is(1))", "[f'a{1}', 2]",
     "snapshot(1)", "[snapshot(1), 2]", "[1, snapshot(2)]", "{'a': snapshot(1), 'b': 2}", "[[snapshot(1)], 2]", "[Is(1), snapshot(2)]",
